@@ -1,9 +1,17 @@
-// Package proxy plugs the wire-level damage layer into the C03 monitor.
+// Package proxy plugs the wire-level layers into the C03 monitor: the damage layer (proxylayers) and the extension layer
+// (extension_wire.go: extended searchable values read through the PostgreSQL and the MySQL proxy).
 package proxy
 
 import (
+	"verif/harness/internal/ev"
 	"verif/harness/internal/props/c03"
 	"verif/harness/internal/props/proxylayers"
 )
 
-func init() { c03.ProxyLayer = proxylayers.DamageLayer("C03") }
+func init() {
+	damage := proxylayers.DamageLayer("C03")
+	c03.ProxyLayer = func(r *ev.Run) {
+		damage(r)
+		WireExtensionLayer(r)
+	}
+}
